@@ -21,10 +21,13 @@ THEOREMS = [
     "AcqVerif.C18.ids_strictly_increase",
     "AcqVerif.C18.ids_count_generated_frames",
     "AcqVerif.C18.trigger_gated",
+    "AcqVerif.C18.no_frame_before_first_trigger",
     "AcqVerif.C18.no_lost_wakeup_frame_call",
     "AcqVerif.C18.no_lost_wakeup_streamer_on_stop",
     "AcqVerif.C18.stop_join_measure",
     "AcqVerif.C18.stop_streamer_progress",
+    "AcqVerif.C18.stop_unblocks_frame_call",
+    "AcqVerif.C18.set_off_race",
 ]
 
 HARNESS_SRC = [
@@ -418,9 +421,9 @@ def run(ctx):
         return
     thorough = ctx.tier == "thorough"
     bound = 3 if thorough else 2
-    budget = 12000 if thorough else 2500
+    budget = 9000 if thorough else 2500
     scen = [(a, b, budget) for a, b in SCENARIOS]
-    nrand = 60 if thorough else 14
+    nrand = 50 if thorough else 14
     for _ in range(nrand):
         a, b = random_script(ctx.rng, 11 if thorough else 8)
         scen.append((a, b, budget // 2))
